@@ -137,6 +137,8 @@ func (e *Env) eval(c *CExpr) val {
 	case "old":
 		n := e.cloneWith(e.old)
 		n.old = e.old
+		// inside old(), a parameter name denotes the value the function was entered with (also where the body reassigns it)
+		n.paramsAtEntry = true
 		return n.eval(c.Args[0])
 	case "sel":
 		return e.selector(c)
